@@ -12,6 +12,7 @@ mod gen_text;
 mod ops_codec;
 mod ops_doc;
 mod ops_lex;
+mod ops_net;
 mod rng;
 mod wire;
 
@@ -28,7 +29,7 @@ fn run_line(line: &str) -> String {
     }
     let (op, args) = (parts[0], &parts[1..]);
     let res = panic::catch_unwind(|| {
-        ops_lex::run(op, args).or_else(|| ops_doc::run(op, args)).or_else(|| ops_codec::run(op, args))
+        ops_lex::run(op, args).or_else(|| ops_doc::run(op, args)).or_else(|| ops_codec::run(op, args)).or_else(|| ops_net::run(op, args))
     });
     match res {
         Ok(Some(s)) => s,
